@@ -7,7 +7,7 @@ use proc_macro2::TokenStream;
 use quote::{format_ident, quote};
 
 use super::common::{
-    check_ident, generate_skip_ws, safe_ident, Arity, CloneState, Codegen, CodegenSettings, FieldDescriptor,
+    check_name, generate_skip_ws, safe_ident, Arity, CloneState, Codegen, CodegenSettings, FieldDescriptor,
 };
 use crate::{
     common::FieldProperties,
@@ -44,9 +44,9 @@ impl Codegen for Field {
     }
 
     fn get_fields(&self, _grammar: &Grammar) -> Result<Vec<FieldDescriptor>> {
-        check_ident(&self.typ)?;
+        check_name(&self.typ)?;
         if let Some(Field_name::Identifier(field_name)) = &self.name {
-            check_ident(field_name)?;
+            check_name(field_name)?;
         }
         if let Some(field_name) = &self.name {
             Ok(vec![FieldDescriptor {
